@@ -21,6 +21,7 @@ class StatementSplitter:
         self._is_create = False
         self._begin_depth = 0
         self._in_loop_header = False
+        self._in_ddl = False
 
         self.consume_ws = False
         self.tokens = []
@@ -34,6 +35,10 @@ class StatementSplitter:
             return 1
         elif ttype is T.Punctuation and value == ')':
             return -1
+        elif ttype is T.Punctuation and value == ';':
+            # ends a DDL statement inside a body (see below)
+            self._in_ddl = False
+            return 0
         elif ttype not in T.Keyword:  # if normal token return
             return 0
 
@@ -45,6 +50,11 @@ class StatementSplitter:
 
         # three keywords begin with CREATE, but only one of them is DDL
         # DDL Create though can contain more words such as "or replace"
+        if ttype is T.Keyword.DDL and self._is_create and self._begin_depth > 0:
+            # a DDL statement inside a body: its IF [NOT] EXISTS is not the
+            # start of an IF ... END IF block
+            self._in_ddl = True
+
         if ttype is T.Keyword.DDL and unified.startswith('CREATE'):
             self._is_create = True
             return 0
@@ -81,6 +91,9 @@ class StatementSplitter:
 
         if (unified in ('IF', 'FOR', 'WHILE', 'CASE')
                 and self._is_create and self._begin_depth > 0):
+            if unified == 'IF' and self._in_ddl:
+                # DROP TABLE IF EXISTS ... / CREATE TABLE IF NOT EXISTS ...
+                return 0
             if unified == 'CASE':
                 self._in_case += 1
             elif unified in ('FOR', 'WHILE'):
